@@ -447,6 +447,8 @@ class Interp:
                 self.assign(t, v, env)
         elif isinstance(target, ast.Attribute):
             base = self.eval(target.value, env)
+            if isinstance(base, SOpt):
+                base = base.payload  # guarded by the truth test of the optional on this path
             if isinstance(base, SObj):
                 base.set(target.attr, val)
             elif isinstance(base, STensor) and target.attr == 'shape':
@@ -759,6 +761,8 @@ class Interp:
         return self.getattr(base, node.attr, node.lineno)
 
     def getattr(self, base, attr, line=None):
+        if isinstance(base, SOpt):
+            base = base.payload
         if isinstance(base, LibRef):
             return LibRef(base.dotted + '.' + attr)
         if isinstance(base, STensor):
